@@ -1247,10 +1247,16 @@ impl FileReaderBuilder {
     pub fn build<R: Read + Seek>(self, mut reader: R) -> Result<FileReader<R>, ArrowError> {
         // Space for ARROW_MAGIC (6 bytes) and length (4 bytes)
         let mut buffer = [0; 10];
-        reader.seek(SeekFrom::End(-10))?;
+        let trailer_start = reader.seek(SeekFrom::End(-10))?;
         reader.read_exact(&mut buffer)?;
 
         let footer_len = read_footer_length(buffer)?;
+        // the footer lies in front of the trailer: a length beyond that is not backed by the file
+        if footer_len as u64 > trailer_start {
+            return Err(ArrowError::ParseError(format!(
+                "Invalid footer length: {footer_len} exceeds the {trailer_start} bytes in front of the file trailer"
+            )));
+        }
 
         // read footer
         let mut footer_data = vec![0; footer_len];
